@@ -9,7 +9,7 @@ from harness.base import Recorder
 from harness.linops import build_operator, nmats
 
 PROPERTY = "C01"
-DEFAULT_OPTS = {"validate": 2, "timeout_ms": 10000, "budget_s": 420, "max_paths": 200}
+DEFAULT_OPTS = {"validate": 2, "timeout_ms": 10000, "budget_s": 150, "max_paths": 200, "hunt_budget_s": 60}
 
 META = {
     "bounds": "matrix size n<=2 (quick) / n<=3 (thorough), ncols<=2, batch extents <=2, Krylov/Broyden loops "
@@ -85,6 +85,10 @@ def krylov(cx, method="cg", n=2, ncols=1, withE=False, withM=False, posdef=True,
         gd = cx.sym("gd", ba + (n,), positive=True, lo=0.5, hi=2)
         G = G - torch.diag_embed(torch.diagonal(G, dim1=-2, dim2=-1)) + torch.diag_embed(gd)
         Amat = torch.matmul(G, G.transpose(-2, -1))
+        A = LinearOperator.m(Amat, is_hermitian=True)
+    elif opkind == "diag":
+        gd = cx.sym("gd", ba + (n,), positive=True, lo=0.5, hi=2)
+        Amat = torch.diag_embed(gd)
         A = LinearOperator.m(Amat, is_hermitian=True)
     elif opkind == "sym":
         a = cx.sym("a0", ba + (n, n))
@@ -188,6 +192,10 @@ def configs(tier):
             opkind="spd")
         add("krylov/%s/spd/posdef/AE/it1" % method, krylov, method=method, n=2, ncols=2 if method != "bicgstab" else 1,
             posdef=True, max_niter=1, opkind="spd", withE=True)
+    for method in ("cg", "bicgstab", "gmres"):
+        # several columns without E: the stopping test is per column
+        add("krylov/%s/diag/posdef/A/c2/it1" % method, krylov, method=method, n=2, ncols=2, posdef=True, max_niter=1, opkind="diag",
+            opts={"hunt_always": True})
     add("krylov/cg/sym/normal/A/it1", krylov, method="cg", n=2, ncols=1, posdef=False, max_niter=1, opkind="sym")
     add("krylov/gmres/mvrmv/normal/A/it1", krylov, method="gmres", n=2, ncols=1, posdef=False, max_niter=1, opkind="mvrmv")
     add("krylov/cg/mvrmv/nonhermitian/A/it1", krylov, method="cg", n=2, ncols=1, posdef=True, max_niter=1, opkind="mvrmv")
